@@ -340,8 +340,9 @@ def r4_config_plumbing(ctx) -> None:
             src = u(ctx.canon.module_expr(mod, v)) if v is not None else ""
         except Exception:
             src = ""
-        members = "[(c0, c1) for c0, c1 in inspect.getmembers(sys.modules[__name__]) if inspect.isclass(c1) if c1.__module__ == __name__]"
-        ok = src == (members + " + tys_classes" if want_plus else members)
+        # (canonical: inspect.getmembers of a module object is its namespace sorted by name)
+        gen = "(c0, c1) for c0, c1 in sorted(vars(sys.modules[__name__]).items()) if inspect.isclass(c1) if c1.__module__ == __name__"
+        ok = src == (f"[*({gen}), *tys_classes]" if want_plus else f"[{gen}]")
         ctx.check(ok, "C17.R2", f"{mod.name}.classes", mod.path, getattr(v, "lineno", 1),
                   "the class list handed to model_rebuild must be all classes defined in this module" + (" plus those of tys" if want_plus else ""), v)
 
